@@ -5,6 +5,7 @@ from . import build
 from .solve import Prover, Result, model_value
 
 VERIF = os.path.dirname(os.path.dirname(os.path.abspath(__file__)))
+OUT = os.environ.get('VERIF_OUT') or VERIF      # evidence/replays directory (VERIF_OUT is only used when trying checks against scratch trees)
 EXIT_OK, EXIT_VIOLATION, EXIT_HARNESS = 0, 1, 2
 
 class Report:
@@ -199,8 +200,8 @@ def finish(pid, tier, rep, t0, bounds, assumptions, outside, domain_note, exhaus
     known = [k for k in load_known() if k['property'] == pid]
     open_keys = {k['key']: k for k in known if k.get('status', 'known') == 'known'}
     code = EXIT_OK
-    os.makedirs(os.path.join(VERIF, 'replays'), exist_ok=True)
-    seen_known = set(); nviol = 0
+    os.makedirs(os.path.join(OUT, 'replays'), exist_ok=True)
+    seen_known = set(); nviol = 0; per_key = {}
     for n, v in enumerate(rep.violations):
         if v['key'] in open_keys:
             if v['key'] not in seen_known:
@@ -208,7 +209,10 @@ def finish(pid, tier, rep, t0, bounds, assumptions, outside, domain_note, exhaus
                 seen_known.add(v['key'])
             continue
         nviol += 1
-        path = os.path.join(VERIF, 'replays', '%s_%s_%d.json' % (pid, tier, n))
+        per_key[v['key']] = per_key.get(v['key'], 0) + 1
+        code = EXIT_VIOLATION
+        if per_key[v['key']] > 3: continue          # at most three replay files / lines per distinct failure class
+        path = os.path.join(OUT, 'replays', '%s_%s_%d.json' % (pid, tier, n))
         json.dump(dict(property=pid, key=v['key'], what=v['what'], obligation=v.get('obligation'), replay=v['replay']), open(path, 'w'), indent=1, default=str)
         print("VIOLATION property=%s replay=%s" % (pid, path))
         print("  what: %s [%s]" % (v['what'], v['key']))
@@ -238,8 +242,8 @@ def finish(pid, tier, rep, t0, bounds, assumptions, outside, domain_note, exhaus
     if extra: cov.update(extra)
     ev = dict(property_id=pid, tier=tier, seed=seed, level='model_checking', coverage=cov,
               assumptions=assumptions, wall_s=round(time.time() - t0, 2), violations=nviol)
-    os.makedirs(os.path.join(VERIF, 'evidence'), exist_ok=True)
-    json.dump(ev, open(os.path.join(VERIF, 'evidence', pid + '.json'), 'w'), indent=1, default=str)
+    os.makedirs(os.path.join(OUT, 'evidence'), exist_ok=True)
+    json.dump(ev, open(os.path.join(OUT, 'evidence', pid + '.json'), 'w'), indent=1, default=str)
     print("%s %s: %d obligations, %d discharged (%d by simplifier), %d inconclusive, %d paths, %d IR instr, %d replays, %d witnesses, solver %.1fs, wall %.1fs -> exit %d" % (
         pid, tier, rep.obligations, rep.discharged, rep.trivial, rep.inconclusive, rep.paths, rep.instr, rep.replays, rep.witnesses, rep.solver_time, time.time() - t0, code))
     return code
